@@ -156,16 +156,16 @@ fn do_sched(
                 (Mode::Keyed(_), Some(d), _) => scheduler.schedule_keyed_event(Duration::from_nanos(d), __f, m, addr).map(Some),
                 (Mode::Keyed(_), None, Some(t)) => scheduler.schedule_keyed_event(mtt(t), __f, m, addr).map(Some),
                 (Mode::Periodic(p), Some(d), _) => scheduler
-                    .schedule_periodic_event(Duration::from_nanos(d), Duration::from_nanos(p), __f, m, addr)
+                    .schedule_periodic_event(Duration::from_nanos(d), crate::case::period_dur(p), __f, m, addr)
                     .map(|_| None),
                 (Mode::Periodic(p), None, Some(t)) => scheduler
-                    .schedule_periodic_event(mtt(t), Duration::from_nanos(p), __f, m, addr)
+                    .schedule_periodic_event(mtt(t), crate::case::period_dur(p), __f, m, addr)
                     .map(|_| None),
                 (Mode::KeyedPeriodic(_, p), Some(d), _) => scheduler
-                    .schedule_keyed_periodic_event(Duration::from_nanos(d), Duration::from_nanos(p), __f, m, addr)
+                    .schedule_keyed_periodic_event(Duration::from_nanos(d), crate::case::period_dur(p), __f, m, addr)
                     .map(Some),
                 (Mode::KeyedPeriodic(_, p), None, Some(t)) => scheduler
-                    .schedule_keyed_periodic_event(mtt(t), Duration::from_nanos(p), __f, m, addr)
+                    .schedule_keyed_periodic_event(mtt(t), crate::case::period_dur(p), __f, m, addr)
                     .map(Some),
                 _ => unreachable!(),
             })));
@@ -187,9 +187,9 @@ fn do_sched(
                     let (a, k) = es.keyed_event(m);
                     (a, Some(k))
                 }
-                Mode::Periodic(p) => (es.periodic_event(Duration::from_nanos(p), m), None),
+                Mode::Periodic(p) => (es.periodic_event(crate::case::period_dur(p), m), None),
                 Mode::KeyedPeriodic(_, p) => {
-                    let (a, k) = es.keyed_periodic_event(Duration::from_nanos(p), m);
+                    let (a, k) = es.keyed_periodic_event(crate::case::period_dur(p), m);
                     (a, Some(k))
                 }
             };
